@@ -45,7 +45,7 @@ type Input struct {
 func init() {
 	run.Register(&run.Check{
 		ID:   "C13",
-		Rule: "cases are (function, argument tuple) over a 190-value boundary set of doubles (exhaustive for unary functions and for atan2/pow pairs), random bit patterns, typed arguments for ToNumber, and strings of UTF-16 code units (every single code unit in thorough, every 16th in quick, plus astral pairs, random strings over weighted alphabets and mutated percent-escapes); a case is non-trivial when it is distinct by (operation, function, exact arguments) and the function was actually evaluated",
+		Rule: "cases are (function, argument tuple) over a 161-value boundary set of doubles (exhaustive for unary functions and for atan2/pow pairs), random bit patterns, typed arguments for ToNumber, and strings of UTF-16 code units (every single code unit in thorough, every 16th in quick, plus astral pairs, random strings over weighted alphabets and mutated percent-escapes); a case is non-trivial when it is distinct by (operation, function, exact arguments) and the function was actually evaluated",
 		Assumptions: []string{
 			"oracle: internal/refmath (15.8.2 special-case bullets transcribed cell by cell; abs/ceil/floor/round/max/min exact) and internal/refuri (15.1.3 Encode/Decode and B.2.1/B.2.2 over UTF-16 code units); both have their own unit tests",
 			"where 15.8.2 says 'implementation-dependent approximation' no value is compared: only relations (range, sign, odd/even symmetry, inverse pairs, Pythagorean and quotient identities, monotonicity on ordered triples, agreement of pow with exp(y*log x), sqrt, x*x, 1/x) within tolerances stated in the code, and a fixed list of textbook values within 1 ulp of the correctly rounded result",
